@@ -12,8 +12,25 @@ impl Format for Literal {
         _formatter: &mut Formatter,
     ) -> Result<(), FormatterError> {
         match self {
-            Self::String(lit_string) => write!(formatted_code, "\"{}\"", lit_string.parsed)?,
-            Self::Char(lit_char) => write!(formatted_code, "\'{}\'", lit_char.parsed)?,
+            // String and char literals backed by source code are written as they are in the source.
+            // Rendering the parsed value drops the escape sequences (`"\\\\"` would become `"\\"`, a
+            // char literal holding an escaped quote would become three quotes), which changes the
+            // program or makes it unparsable. Only literals not backed by source code (empty span)
+            // are rendered from the parsed value.
+            Self::String(lit_string) => {
+                if lit_string.span.is_empty() {
+                    write!(formatted_code, "\"{}\"", lit_string.parsed)?
+                } else {
+                    write!(formatted_code, "{}", lit_string.span.as_str())?
+                }
+            }
+            Self::Char(lit_char) => {
+                if lit_char.span.is_empty() {
+                    write!(formatted_code, "\'{}\'", lit_char.parsed)?
+                } else {
+                    write!(formatted_code, "{}", lit_char.span.as_str())?
+                }
+            }
             Self::Int(lit_int) => {
                 // It is tricky to support formatting of `LitInt` for an arbitrary `LitInt`
                 // that is potentially not backed by source code, but constructed in-memory.
